@@ -49,6 +49,8 @@ var impTargets = []impTarget{
 	{"hermes/soiltemp.go", "Soiltemp"},
 	{"hermes/denit.go", "Denitr"},
 	{"hermes/water.go", "Water"},
+	{"hermes/nitro.go", "nmove"},
+	{"hermes/nitro.go", "mineral"},
 }
 
 // ---------------------------------------------------------------------------------------------- type-checked package
@@ -204,6 +206,8 @@ func kindOf(ty types.Type) (kind string, n int) {
 			return "int", 0
 		case u.Info()&types.IsBoolean != 0:
 			return "bool", 0
+		case u.Info()&types.IsString != 0:
+			return "string", 0
 		}
 	case *types.Array:
 		k, _ := kindOf(u.Elem())
@@ -237,6 +241,8 @@ func leanType(kind string) string {
 		return "List α"
 	case "ints":
 		return "List Int"
+	case "string":
+		return "String"
 	}
 	return "?"
 }
@@ -511,6 +517,8 @@ func (t *impTr) exactConst(e ast.Expr) (*big.Rat, bool) {
 func (t *impTr) constExpr(e ast.Expr, tv types.TypeAndValue) string {
 	k, _ := kindOf(tv.Type)
 	switch k {
+	case "string":
+		return strconv.Quote(constant.StringVal(tv.Value))
 	case "bool":
 		if constant.BoolVal(tv.Value) {
 			return "True"
@@ -569,7 +577,7 @@ func (t *impTr) intExpr(e ast.Expr) string {
 
 var mathUnary = map[string]string{"Exp": "exp", "Log": "log", "Sqrt": "sqrt", "Sin": "sin", "Cos": "cos", "Tan": "tan", "Asin": "asin",
 	"Acos": "acos", "Atan": "atan", "Abs": "abs", "Round": "round", "Floor": "floor", "Ceil": "ceil"}
-var mathBinary = map[string]string{"Pow": "pow", "Max": "max", "Min": "min"}
+var mathBinary = map[string]string{"Pow": "pow", "Max": "max", "Min": "min", "Mod": "mod"}
 
 // expr translates a value expression (float / int); conditions go through cond.
 func (t *impTr) expr(e ast.Expr) string {
@@ -785,6 +793,8 @@ func zeroOf(kind string, n int) string {
 		return "0"
 	case "bool":
 		return "false"
+	case "string":
+		return "\"\""
 	case "floats":
 		return fmt.Sprintf("(List.replicate %d 0.0)", n)
 	case "ints":
@@ -1208,7 +1218,7 @@ func impDriverOps(ok []string, fieldsOf map[string][]*impField) string {
 		fmt.Fprintf(&b, "/-- `srcimp.%s <fields of St in declaration order>` (floats as bit patterns, ints in decimal, bools 0/1, lists length-prefixed)\n(locals excluded: they start at their zero values)\nanswers the non-local fields of the state after the call, in the same order and encoding -/\n", fn)
 		fmt.Fprintf(&b, "def srcimp%s (toks : List String) : Option String := do\n  let r := toks\n", fn)
 		for _, f := range fl {
-			if f.Role == "local" {
+			if f.Role == "local" || f.Kind == "string" {
 				continue
 			}
 			switch f.Kind {
@@ -1230,8 +1240,8 @@ func impDriverOps(ok []string, fieldsOf map[string][]*impField) string {
 			if i > 0 {
 				b.WriteString(",")
 			}
-			if f.Role == "local" {
-				fmt.Fprintf(&b, " %s := %s", f.Lean, map[string]string{"float": "0.0", "int": "0", "bool": "false", "floats": "[]", "ints": "[]"}[f.Kind])
+			if f.Role == "local" || f.Kind == "string" {
+				fmt.Fprintf(&b, " %s := %s", f.Lean, map[string]string{"float": "0.0", "int": "0", "bool": "false", "floats": "[]", "ints": "[]", "string": "\"\""}[f.Kind])
 			} else {
 				fmt.Fprintf(&b, " %s := x_%s", f.Lean, f.Lean)
 			}
@@ -1242,6 +1252,15 @@ func impDriverOps(ok []string, fieldsOf map[string][]*impField) string {
 		first := true
 		for _, f := range fl {
 			if f.Role == "local" {
+				continue
+			}
+			if f.Kind == "string" {
+				// strings travel as one token: their length (the kernels only set flags like "C1 unstable")
+				if !first {
+					b.WriteString(", ")
+				}
+				first = false
+				fmt.Fprintf(&b, "toString s.%s.length", f.Lean)
 				continue
 			}
 			if !first {
